@@ -137,3 +137,37 @@ def run_mixes(ctx, rp, jobs, max_paths=None, par=6):
     if errs:
         raise errs[0]
     ctx.extra["mixes"] = ["%s|%s" % ("+".join(r), "+".join(w)) for r, w in jobs]
+
+
+def explore_validate(ctx, rp, rmix, wmix, tag, runs):
+    """code -> spec: random schedules of a (larger) mix on the real code, validated by TLC against FutureTrace.tla"""
+    from framework import trace_validate
+    consts, rk, wk = mix_constants(rmix, wmix)
+    consts = {k: v.replace("r", '"r').replace("w", '"w').replace(",", '",').replace("}", '"}') if v != "{}" else v
+              for k, v in consts.items()}
+    trace = os.path.join(vlib.BUILD, "%s_%s.ndjson" % (ctx.prop, tag))
+    script = os.path.join(vlib.BUILD, "%s_%s_ex.script" % (ctx.prop, tag))
+    with open(script, "w") as f:
+        f.write("BEGIN ex %s\nEND\n" % vlib.canon({"R": rk, "W": wk, "explore": {"runs": runs, "seed": ctx.seed, "out": trace}}))
+    rc, out = vlib.run_cmd([rp], stdin_path=script, timeout=600)
+    os.remove(script)
+    if rc != 0 or not os.path.exists(trace):
+        ctx.violation("explore:crash:%s" % tag, "exploration of mix %s|%s terminated abnormally: %s" % (rmix, wmix, out[-800:]),
+                      "#replayer future_replay\n#exploration crashed\n" + out[-2000:], kind="txt")
+        return
+    nlines = sum(1 for _ in open(trace))
+    ok, matched, res = trace_validate(ctx, "Future", "FutureTrace", "FutureTrace_base.cfg", consts, trace, tag, nlines)
+    if ok:
+        ctx.traces += runs
+        ctx.steps += nlines
+        if len(ctx.samples) < 6:
+            ctx.sample({"trace_validation": "%s|%s" % ("+".join(rmix), "+".join(wmix)), "runs": runs, "lines": nlines,
+                        "first_lines": [l.strip()[:300] for l in open(trace).readlines()[:3]]})
+    else:
+        lines = open(trace).readlines()
+        bad = lines[matched] if matched < len(lines) else "(end)"
+        txt = "# trace rejected by FutureTrace.tla (%s); matched prefix = %d lines; offending line:\n# %s\n" % (res.violation, matched, bad.strip())
+        ctx.violation("trace:%s:%s" % (tag, res.violated_name), "recorded execution of the real code is not a behaviour of Future.tla "
+                      "(mix %s|%s, %s): line %d: %s" % (rmix, wmix, res.violation, matched + 1, bad.strip()[:400]),
+                      txt + "".join(lines[:matched + 1]), kind="ndjson")
+    os.remove(trace)
